@@ -159,8 +159,10 @@ def run(case, rec):
     forms = case.get("forms")  # None | int (global) | list
     start_i = case.get("start", -1)
 
+    typed = bool(case.get("typed"))
+
     def setup():
-        tree, nodes = build(spec)
+        tree, nodes = build(spec, typed=typed)
         vmap = {id(n): verdicts[i % len(verdicts)] if verdicts else "T" for i, n in enumerate(nodes)}
         fmap = {}
         for i, n in enumerate(nodes):
@@ -188,6 +190,8 @@ def run(case, rec):
     rec.nt(any(v in ("S", "S0", "S1", "B", "X") for v in vs) and _true_below_falsy(w, roots, vof))
     rec.cls("stop" if stopped else "no-stop")
     rec.cls("start=tree" if start is None else "start=branch")
+    if typed:
+        rec.cls("typed")
     for v in set(vs):
         rec.cls(f"verdict={v}")
 
@@ -209,7 +213,7 @@ def run(case, rec):
         if snapshot(tree, u) != before:
             rec.fail("copy-form:source-modified", form_name)
             return
-        if not isinstance(res, Tree) or res is tree:
+        if not isinstance(res, Tree) or res is tree or type(res) is not type(tree):
             rec.fail("copy-form:result-class", repr(res))
             return
         w2 = walk(res)
@@ -341,7 +345,10 @@ def hyp_cases(draw, tier):
     verdicts = draw(st.lists(st.sampled_from(pool), min_size=n, max_size=n))
     forms = draw(st.lists(st.sampled_from([0, 1, 2, 3]), min_size=n, max_size=n))
     start = draw(st.sampled_from([-1, -1, 0, 1, 2, 3]))
-    return {"spec": spec, "verdicts": verdicts, "forms": forms, "start": start}
+    case = {"spec": spec, "verdicts": verdicts, "forms": forms, "start": start}
+    if draw(st.sampled_from([0, 0, 1])):
+        case["typed"] = True  # kinds are not compared (known finding D10a), the typed code paths are exercised
+    return case
 
 
 PARTS = [
